@@ -305,7 +305,7 @@ func c06(c *core.Ctx, r *core.Report) {
 							}
 						}
 					case "Reset", "NewTWithOptions":
-						okk = strings.HasPrefix(d, "local:") || strings.HasPrefix(d, "make(")
+						okk = strings.HasPrefix(d, "local:") || strings.HasPrefix(d, "make(") || freshEmptySlice(fn, st.Val)
 					}
 					r.Check(okk, core.FuncName(fn)+"#teardownStack", an.Pos(c, in), name+" writes "+d, "cleanup stack written in "+core.FuncName(fn)+" with "+d+": registered cleanups are lost, duplicated or reordered")
 				case an.SameField(fld, tearing):
@@ -324,6 +324,46 @@ func c06(c *core.Ctx, r *core.Report) {
 					}
 					r.Check(okk, core.FuncName(fn)+"#tearingDown="+val, an.Pos(c, in), name+" sets tearingDown="+val, "tearingDown set to "+val+" in "+core.FuncName(fn)+": failures are attributed to the wrong phase")
 				}
+			})
+		}
+		// writes made by pointer-receiver methods of a wrapper type around the stack (`func (s *stack) push(f)`): the
+		// method must append its own parameter to its receiver, and be called only from Cleanup, on the handle's field
+		for _, m := range c.AllFuncs {
+			if core.RelPkg(m) != tpkg || m.Signature.Recv() == nil || len(m.Params) == 0 {
+				continue
+			}
+			rp, isPtr := m.Signature.Recv().Type().Underlying().(*types.Pointer)
+			if !isPtr || !types.Identical(rp.Elem(), stack.Type()) {
+				continue
+			}
+			an.Instrs(m, func(in ssa.Instruction) {
+				st, ok := in.(*ssa.Store)
+				if !ok || an.Strip(st.Addr) != ssa.Value(m.Params[0]) {
+					return
+				}
+				n++
+				okk := false
+				if ap, isCall := an.Strip(st.Val).(*ssa.Call); isCall && an.IsBuiltinCall(ap, "append") {
+					if ld, isLd := ap.Call.Args[0].(*ssa.UnOp); isLd && an.Strip(ld.X) == ssa.Value(m.Params[0]) {
+						for _, el := range varargElems(ap.Call.Args[1]) {
+							if _, isParam := an.Strip(el).(*ssa.Parameter); isParam {
+								okk = true
+							}
+						}
+					}
+				}
+				for _, site := range an.CallSitesOf(c, m) {
+					fld, _ := an.TerminalField(site.Common().Args[0])
+					if an.Outermost(site.Parent()).Name() != "Cleanup" || !an.SameField(fld, stack) {
+						okk = false
+					}
+					if len(site.Common().Args) > 1 {
+						if _, isParam := an.Strip(site.Common().Args[1]).(*ssa.Parameter); !isParam {
+							okk = false
+						}
+					}
+				}
+				r.Check(okk, core.FuncName(m)+"#teardownStack", an.Pos(c, in), m.Name()+" appends its argument to the stack and is called only by Cleanup", "cleanup stack written in "+core.FuncName(m)+" with "+an.D().Of(st.Val)+": registered cleanups are lost, duplicated or reordered")
 			})
 		}
 		r.Floor("writes to the cleanup stack / tearingDown", n, 5)
@@ -484,4 +524,31 @@ func literalLeafFields(al ssa.Value) map[string]ssa.Value {
 	}
 	walk(al, 0)
 	return out
+}
+
+// freshEmptySlice: v is an empty slice made here — nil, make(…, 0, …), an empty literal — or the result of a
+// function of the module that returns one on its only return.
+func freshEmptySlice(fn *ssa.Function, v ssa.Value) bool {
+	rv := an.RootFV(fn, v).Resolve(nil)
+	x := an.Strip(rv.V)
+	for i := 0; i < 3; i++ {
+		if ct, ok := x.(*ssa.ChangeType); ok {
+			x = an.Strip(ct.X)
+		}
+	}
+	switch y := x.(type) {
+	case *ssa.Const:
+		return y.IsNil()
+	case *ssa.MakeSlice:
+		k, ok := y.Len.(*ssa.Const)
+		return ok && k.Value != nil && k.Int64() == 0
+	case *ssa.Slice:
+		// []T{}[:] of a zero-length array
+		if al, ok := y.X.(*ssa.Alloc); ok {
+			if arr, isArr := al.Type().(*types.Pointer).Elem().Underlying().(*types.Array); isArr {
+				return arr.Len() == 0
+			}
+		}
+	}
+	return false
 }
